@@ -46,7 +46,7 @@ PLAN = {
             ["C11"], "a fetch whose rule set holds both matching and non-matching (or removed, or failing) rules"),
     "C13": ([("memo13", 800, ["-variants", ALLV]), ("memo13", 200, ["-calls", "2", "-mode", "mixed"])],
             ["C13"], "a later cycle started while the working memory held the value of the counted method atom shared by the rules (so it is consulted again)"),
-    "C14": ([("fault", 800, ["-flagp", "0.5", "-variants", ALLV]), ("fault", 200, ["-mode", "mixed", "-flagp", "0.5"])],
+    "C14": ([("patterne", 2, []), ("fault", 800, ["-flagp", "0.5", "-variants", ALLV]), ("fault", 200, ["-mode", "mixed", "-flagp", "0.5"])],
             ["C14", "C14a"], "a condition evaluation or an action failed (nil pointer, index or key out of range, % 0, panicking method)"),
     "C15": ([("core", 25, ["-cancel", "-maxcycle", "4"]), ("memo", 20, ["-cancel", "-maxcycle", "4"]),
              ("control", 20, ["-cancel", "-maxcycle", "4"]), ("fault", 10, ["-cancel", "-maxcycle", "3", "-flagp", "0.5"])],
@@ -57,6 +57,7 @@ PLAN = {
 EXPORTED = {
     "pattern": ("GruleMemo.tla", "MCMemo.cfg", "pattern-traces", "taint abstraction of the working memory, invariant MemoSound, dependency patterns"),
     "patternx": ("GruleMemo.tla", "MCMemoExt.cfg", "pattern-traces", "taint abstraction with control calls (Complete / Retract before the assignment) and a re-read of the reader's condition after it, invariant MemoSound"),
+    "patterne": ("GruleMemo.tla", "MCMemoErr.cfg", "pattern-traces", "taint abstraction with a reader atom whose evaluation fails for one selector value (a condition that evaluated well fails after the writer ran, and back), invariant MemoSound"),
     "reuse": ("GruleReuse.tla", "MCReuse.cfg", "reuse-traces", "call histories on one instance (3 call kinds x 5 endings, depth 3), invariant FreshAtStart"),
 }
 MODEL = {"quick": ("MCEngine.tla", "MCEngineQuick.cfg"), "thorough": ("MCEngine.tla", "MCEngine.cfg")}
@@ -85,7 +86,9 @@ def run_batch(gh, idx, profile, n, extra, seed, reps=2):
         extra_model = {"what": "%s / %s: %s; %d cases exported" % (tla, cfg, what, len(seen)),
                        "distinct": res["distinct"], "generated": res["generated"], "patterns": len(seen)}
         cmd = [gh, subcmd, "-in", "exported.ndjson", "-seed", str(seed), "-out", "trace.ndjson", "-cases", "cases.ndjson"]
-        if profile in ("pattern", "patternx"):
+        if profile == "patterne":
+            cmd += ["-flagp", "0.5"]
+        if profile in ("pattern", "patternx", "patterne"):
             cmd += ["-worlds", str(n)]
     elif profile.startswith("grb:"):
         # C12 fault enumeration on the stored stream (truncation offsets, failing writer); traces only of prefixes that load
@@ -241,7 +244,7 @@ def evaluate(prop, batches, marks, rule, thorough_factor=None):
         parts = max(1, min(12, total // 400)) if tier == "thorough" else 1
         if profile.startswith("grb:"):
             parts = total  # one rule set per process
-        if profile in ("pattern", "patternx"):
+        if profile in ("pattern", "patternx", "patterne"):
             parts, total = 1, (n if tier == "quick" else 4 * n)  # fact states per pattern
         if profile == "reuse":
             parts, total = 1, 1
